@@ -54,6 +54,10 @@ func (sv structValue) PropertyValue(index Value) Value {
 		return sv.invoke(m)
 	}
 	if field, ok := sv.findField(name); ok {
+		if field.PkgPath != "" {
+			// unexported field: not accessible (reflect would panic)
+			return nilValue
+		}
 		fv := sr.FieldByName(field.Name)
 		if fv.Kind() == reflect.Func {
 			return sv.invoke(fv)
@@ -78,7 +82,7 @@ func (sv structValue) findField(name string) (*reflect.StructField, bool) {
 	}
 	for i, n := 0, sr.NumField(); i < n; i++ {
 		field := sr.Field(i)
-		if field.Tag.Get(tagKey) == name {
+		if tag, ok := field.Tag.Lookup(tagKey); ok && tag == name {
 			return &field, true
 		}
 	}
